@@ -347,8 +347,9 @@ def _c08_specs(tier):
 
 def _c16_specs(tier):
     if tier == 'quick':
-        return [('c16-dict-len3', ['--set', 'dict', '--len', '3']), ('c16-all-len2', ['--set', 'all', '--len', '2'])]
-    return [('c16-dict-len4', ['--set', 'dict', '--len', '4']), ('c16-all-len3', ['--set', 'all', '--len', '3'])]
+        return [('c16-dict-len3', ['--set', 'dict', '--len', '3']), ('c16-all-len2', ['--set', 'all', '--len', '2']),
+                ('c16-dictcase-dict-len2', ['--set', 'dict', '--len', '2', '--cfg', 'dictcase=yes'], 8)]
+    return [('c16-dict-len4', ['--set', 'dict', '--len', '4']), ('c16-all-len3', ['--set', 'all', '--len', '3']), ('c16-dictcase-dict-len3', ['--set', 'dict', '--len', '3', '--cfg', 'dictcase=yes'])]
 
 
 def _c07_runs(tier):
